@@ -116,6 +116,9 @@ func scTypeName(n int) string {
 	if s, ok := scOpTypes[n]; ok {
 		return s
 	}
+	if n >= 700 && n < 800 {
+		return scGen("t", n-700) // the name of type n-700 in lower case: names are told apart by case
+	}
 	if n >= 800 && n < 900 {
 		return scDirName(n - 800) // a type that carries the name of directive n-800 (names of types and directives are apart)
 	}
@@ -169,7 +172,7 @@ func scLocName(n int) string {
 	return "NONSENSE"
 }
 
-var scGenRe = regexp.MustCompile(`^(__)?([TdfaE])(\d{4})$`)
+var scGenRe = regexp.MustCompile(`^(__)?([TtdfaE])(\d{4})$`)
 
 // scParseName inverts the renderers: (name space letter, number).
 func scParseName(s string) (byte, int, bool) {
@@ -197,6 +200,9 @@ func scTypeID(s string) int {
 	}
 	if k, n, ok := scParseName(s); ok && k == 'T' {
 		return n
+	}
+	if k, n, ok := scParseName(s); ok && k == 't' && n < 100 {
+		return 700 + n
 	}
 	if k, n, ok := scParseName(s); ok && k == 'd' && n < 100 {
 		return 800 + n
@@ -1041,6 +1047,7 @@ func scExec(input sx.S) sx.S {
 	}
 	root := ggql.NewRoot(scProbe{})
 	out := []sx.S{"loads"}
+	var accepted []scItem
 	for _, d := range l[1:] {
 		dl := sx.List(d)
 		if dl[0].(string) != "doc" {
@@ -1086,6 +1093,12 @@ func scExec(input sx.S) sx.S {
 		for i := range before {
 			same = append(same, sx.A(before[i] == after[i]))
 		}
+		if err == nil {
+			// the order in which the root lists its types and directives against that of a fresh root
+			// given everything accepted so far as one document in the reverse order
+			accepted = append(accepted, items...)
+			same = append(same, sx.A(scSameListing(root, accepted)))
+		}
 		res := "accepted"
 		var cites sx.S = sx.L("cites")
 		var msg sx.S = sx.Hex("")
@@ -1126,6 +1139,36 @@ func scFiles(items []scItem, seed int) fstest.MapFS {
 		fsys["f"+strconv.Itoa(j)+".graphql"] = &fstest.MapFile{Data: []byte(text)}
 	}
 	return fsys
+}
+
+func scListing(root *ggql.Root) string {
+	var b strings.Builder
+	for _, t := range root.Types() {
+		b.WriteString(t.Name() + " ")
+	}
+	b.WriteString("| ")
+	for _, t := range root.Directives() {
+		b.WriteString(t.Name() + " ")
+	}
+	res := root.ResolveString("{__schema{types{name} directives{name}}}", "", nil)
+	return b.String() + "| " + scJSON(res)
+}
+
+func scSameListing(root *ggql.Root, accepted []scItem) (same bool) {
+	defer func() {
+		if r := recover(); r != nil {
+			same = true
+		}
+	}()
+	rev := make([]scItem, 0, len(accepted))
+	for i := len(accepted) - 1; i >= 0; i-- {
+		rev = append(rev, accepted[i])
+	}
+	fresh := ggql.NewRoot(scProbe{})
+	if err := fresh.ParseString(scDocText(rev)); err != nil {
+		return true // not loadable that way: nothing to compare with
+	}
+	return scListing(root) == scListing(fresh)
 }
 
 func scValid(input sx.S) bool {
